@@ -231,10 +231,12 @@ class Gen:
         self.loop_depth += 1
         body = [ExprS(OpAssign(Var(i), '+', Num(1)))] + self.block(r.randint(1, 3))
         self.loop_depth -= 1
-        self.scope.vars[i] = 'num'
         cond = Bin('<', Var(i), Num(n))
         if r.random() < 0.3:
+            # generated while the counter is still protected: an assignment to it inside the condition
+            # (`i = c ? -1 : i`) would make the loop endless
             cond = And(cond, self.expr('bool'))
+        self.scope.vars[i] = 'num'
         return [Let(i, Num(0)), While(cond, body)]
 
     def for_loop(self):
